@@ -512,7 +512,8 @@ def idcStarO : Nat → Event → Event → Option (Except Err Expr)
           match (newOutcomesAndConditions kordf nev outcomes conditions).2.get? c with
           | none => some (.error (.internal "KeyError"))
           | some val =>
-            match exchangeStep cf (newOutcomesAndConditions kordf nev outcomes conditions).1 c val with
+            match exchangeStep cf (newOutcomesAndConditions kordf nev outcomes conditions).1 c val
+                    ((newOutcomesAndConditions kordf nev outcomes conditions).snd.filter (fun p => p.1 ≠ c)) with
             | .error e => some (.error e)
             | .ok none => some (.ok .zero)
             | .ok (some no') =>
@@ -556,7 +557,8 @@ theorem idcStarFuel_eq_idcStarO (fuel : Nat) (outcomes conditions : Event) :
               | none => rfl
               | some val =>
                 simp only
-                cases hx : exchangeStep cf (newOutcomesAndConditions kordf nev outcomes conditions).fst c1 val with
+                cases hx : exchangeStep cf (newOutcomesAndConditions kordf nev outcomes conditions).fst c1 val
+                    ((newOutcomesAndConditions kordf nev outcomes conditions).snd.filter (fun p => p.1 ≠ c1)) with
                 | error err => rfl
                 | ok on =>
                   cases on with
@@ -606,13 +608,14 @@ theorem idcStarO_isSome {kordf : List Var → List Var} (hk : SubsetOrder kordf)
               | none => rfl
               | some val =>
                 simp only
-                cases hx0 : exchangeStep cf (newOutcomesAndConditions kordf nev O C).fst c1 val with
+                cases hx0 : exchangeStep cf (newOutcomesAndConditions kordf nev O C).fst c1 val
+                    ((newOutcomesAndConditions kordf nev O C).snd.filter (fun p => p.1 ≠ c1)) with
                 | error err => rfl
                 | ok on =>
                   cases on with
                   | none => rfl
                   | some no' =>
-                  have hx := exchangeStep_some _ _ _ _ _ hx0
+                  have hx := exchangeStep_some _ _ _ _ _ _ hx0
                   simp only
                   have hsubkeys : ∀ k ∈ Event.keys ((newOutcomesAndConditions kordf nev O C).snd.filter (fun p => p.1 ≠ c1)),
                       k ∈ (newOutcomesAndConditions kordf nev O C).snd.keys := by
